@@ -26,7 +26,8 @@ inductive Err where
   | kind      -- the next draw is of another kind than the call the code makes here (or an impossible value)
   | fuel      -- loop fuel exhausted (never: `bd_only_script_errors`, `fbd_only_script_errors`, `pb_only_script_errors`,
               --   `kingman_only_script_errors`, `contained_never_internal_error`, `coalesce_fuel_suffices`)
-  | state     -- an internal lookup failed (never, same theorems: with admissible rates every lookup succeeds)
+  | state     -- an internal failure.  Never for admissible rates (same theorems); with evolving rates gone negative exactly the
+              --   code's ZeroDivisionError (rates summing to zero, `bd_state_error_iff_zero_rate_sum`); for GSA also the code's assert
   | arg       -- inadmissible argument: the code raises (empty namespace, no genes, birth + death <= 0)
 deriving Repr, DecidableEq
 
@@ -46,6 +47,16 @@ def wicLoop (ud : Int) : Int → Nat → List Int → Option Nat
     if rnd' < 0 then some i else wicLoop ud rnd' (i + 1) ws
 
 def wic (un ud : Int) (ws : List Int) : Option Nat := wicLoop ud (un * ws.sum) 0 ws
+
+/-- the event choice of `birth_death_tree` on possibly negative rates (evolving rates may go below zero).  The code first normalises:
+`event_rates[i] / rate_of_any_event` — a `ZeroDivisionError` when the rates sum to zero (`none`) — and then runs
+`weighted_index_choice` on the normalised weights, whose sum is 1: index `i` is returned as soon as `u - Σ_{j≤i} w_j/S < 0`.
+For `S > 0` that is `wic` on the raw rates; for `S < 0` the inequality flips, i.e. `wic` on the negated rates.  In exact
+arithmetic the loop always returns by the last index (`(u-1)·S/S < 0`), so the fall-through is not reached. -/
+def wicN (p q : Int) (ws : List Int) : Option Nat :=
+  if ws.sum = 0 then none
+  else if 0 < ws.sum then wic p q ws
+  else wic p q (ws.map (fun w => -w))
 
 /-! ## growing trees -/
 
@@ -308,11 +319,13 @@ def bdDeath (P : BDParams) (s : BDState) (nd : Tip) (rest : List Tip) (ds : List
 
 /-- `nd, birth_event = probability.weighted_choice(event_nodes, event_rates, rng=rng); extant_tips.remove(nd)` -/
 def bdEvent (P : BDParams) (s : BDState) (ds : List Draw) : Except Err (Step BDState) :=
+  -- `event_rates[i] / rate_of_any_event`: ZeroDivisionError when the rates sum to zero, before the uniform draw is taken
+  if (rates s.extant).sum == 0 then .error .state else
   match ds with
   | [] => .error .draws
   | .u p q :: ds =>
     if q ≤ 0 || p < 0 || p ≥ q then .error .kind else
-    match wic p q (rates s.extant) with
+    match wicN p q (rates s.extant) with
     | none => .error .state
     | some k =>
       match s.extant[k / 2]? with
@@ -432,11 +445,12 @@ def gsaDeath (P : BDParams) (g : GState) (nd : Tip) (rest : List Tip) (ds : List
     | some t => .ok (.cont { g with st := { g.st with tree := t, extant := rest, extinct := g.st.extinct ++ [nd.id] } } ds)
 
 def gsaEvent (P : BDParams) (g : GState) (ds : List Draw) : Except Err (Step GState) :=
+  if (rates g.st.extant).sum == 0 then .error .state else
   match ds with
   | [] => .error .draws
   | .u p q :: ds =>
     if q ≤ 0 || p < 0 || p ≥ q then .error .kind else
-    match wic p q (rates g.st.extant) with
+    match wicN p q (rates g.st.extant) with
     | none => .error .state
     | some k =>
       match g.st.extant[k / 2]? with
